@@ -290,8 +290,21 @@ func (p *Prog) OutEdges(fn *ssa.Function) []CallEdge {
 			case *ssa.Defer:
 				kind = EdgeDefer
 			}
-			for _, callee := range p.Callees(ci.Common()) {
+			direct := p.Callees(ci.Common())
+			for _, callee := range direct {
 				out = append(out, CallEdge{ci, fn, callee, kind})
+			}
+			// thorough tier: what the whole-program VTA graph adds (function values, callbacks)
+			for _, callee := range p.VTACallees(ci) {
+				dup := false
+				for _, d := range direct {
+					if d == callee {
+						dup = true
+					}
+				}
+				if !dup {
+					out = append(out, CallEdge{ci, fn, callee, kind})
+				}
 			}
 			// closures handed to higher-order functions run synchronously
 			// inside the call (Once.Do, Map.Range, sort.Slice, Opts)
